@@ -3,6 +3,7 @@ package pass1
 import (
 	"fmt"
 	"log"
+	"strings"
 
 	"github.com/HobbyOSs/gosk/internal/ast"
 	"github.com/HobbyOSs/gosk/pkg/cpu"
@@ -45,6 +46,10 @@ func processPushPopCommon(env *Pass1, operands []ast.Exp, instName string) {
 		log.Printf("Error finding min output size for %s %s: %v", instName, operandString, err)
 		// Assume default size or handle error appropriately
 		size = 1 // Default size assumption, might need refinement
+	}
+	// PUSH/POP FS, GS は 2 バイトのオペコード (0F A0/A1/A8/A9)
+	if op := strings.ToUpper(strings.TrimSpace(operandString)); err == nil && (op == "FS" || op == "GS") {
+		size = 2
 	}
 	// PUSH imm: codegen は値が符号付き 8 ビットに収まらなければ 68 iw/id を使うので、同じ規則でサイズを数える
 	if numExp, ok := operands[0].(*ast.NumberExp); ok && instName == "PUSH" && err == nil {
